@@ -20,7 +20,7 @@ import (
 func init() {
 	register(&Prop{
 		ID:    "C04",
-		Level: "exploration",
+		Level: "model_checking",
 		Rule: "bounded-exhaustive input enumeration on the real connection loop with a logged-in observer: handshake variants (valid, each significant byte flipped, other versions, every truncation) x " +
 			"first transaction (login or any of the registered types, with/without credential fields) x (login, password) alphabets x account databases x banned/not banned x one or two appended transactions " +
 			"from the request corpus; distinct = distinct (logged-in?, bytes-received class, world-changed?) observations per family",
